@@ -628,6 +628,56 @@ def box_pin_rule(ex, unrec):
     return r
 
 
+PRECISE_BODY = toks("""
+    let input = syn::parse::<ItemFn>(item)?;
+    let instrumented_function_name = input.sig.ident.to_string();
+    if input.sig.constness.is_some() {
+        return Ok(quote! { compile_error!("the `#[instrument]` attribute may not be used with `const fn`s") }.into());
+    }
+    if let Some(async_like) = expand::AsyncInfo::from_fn(&input) {
+        return async_like.gen_async(args, instrumented_function_name.as_str());
+    }
+    let input = MaybeItemFn::from(input);
+    Ok(expand::gen_function(input.as_ref(), args, instrumented_function_name.as_str(), None).into())
+""")
+
+
+def no_trailing_commas(ts):
+    return [t for i, t in enumerate(ts) if not (t == "," and ts[i + 1:i + 2] and ts[i + 1] in (")", "]", "}"))]
+
+
+def detection_ignores_return_type(ex, lib, unrec):
+    """instrument_precise tries AsyncInfo::from_fn on EVERY non-const fn (no condition on the declared return type), and from_fn
+    itself looks at `sig.asyncness` and the block only.  Exact-shape match of instrument_precise's body: fails closed."""
+    body = rsparse.fns_in(lib).get("instrument_precise", (None, None))[1]
+    ff = rsparse.fns_in(ex).get("from_fn", (None, None))[1]
+    ok = body is not None and ff is not None
+    if ok and no_trailing_commas(toks(body)) != no_trailing_commas(PRECISE_BODY):
+        ok = False
+        unrec.append("lib.rs instrument_precise: body is not `parse; name; const check; if let Some(a) = AsyncInfo::from_fn(&input) "
+                     "{ return a.gen_async(..) }; gen_function(..)` (is the async detection conditional?)")
+    if ok:
+        ft = toks(ff)
+        if any(t in ("output", "ReturnType") for t in ft):
+            ok = False
+            unrec.append("AsyncInfo::from_fn mentions the return type")
+        # every use of `input` in from_fn: input.sig.asyncness, input.block, the struct field `input`
+        uses = set()
+        for i, t in enumerate(ft):
+            if t == "input" and ft[i + 1:i + 2] == ["."] and (i == 0 or ft[i - 1] != "."):
+                chain, j = [], i + 1
+                while ft[j:j + 1] == ["."] and re.match(r"[A-Za-z_]\w*$", ft[j + 1]) and ft[j + 2:j + 3] != ["("]:
+                    chain.append(ft[j + 1])
+                    j += 2
+                uses.add(".".join(chain[:2]))
+        if not uses <= {"sig.asyncness", "block"}:
+            ok = False
+            unrec.append("AsyncInfo::from_fn reads %s of the annotated fn" % sorted(uses - {"sig.asyncness", "block"}))
+    elif body is None or ff is None:
+        unrec.append("instrument_precise / from_fn not found")
+    return ok
+
+
 def read_sources(repo):
     ex = rsparse.strip_comments(open(os.path.join(repo, EXPAND)).read())
     at = rsparse.strip_comments(open(os.path.join(repo, ATTR)).read())
@@ -767,6 +817,7 @@ def translate(repo):
     out["tables"] = tables_from(ex, at, unrec)
     out["box_pin"] = box_pin_rule(ex, unrec)
     lib = rsparse.strip_comments(open(os.path.join(repo, LIB)).read())
+    out["ignores_return_type"] = detection_ignores_return_type(ex, lib, unrec)
     out["name_sources"], out["name_facts"] = name_sources(ex, lib, unrec)
     out["unrec"] = unrec
     return out
@@ -935,6 +986,8 @@ def render(out):
              % ("true" if bp.get("idents") else "false"))
     L.append("Definition gen_tail_async_block : bool := %s." % ("true" if bp.get("tail_async_block") else "false"))
     L.append("Definition gen_tail_helper_call : bool := %s." % ("true" if bp.get("helper_call") else "false"))
+    L.append("Definition gen_detection_ignores_return_type : bool := %s.   (* lib.rs instrument_precise: from_fn is tried on every non-const fn *)"
+             % ("true" if out.get("ignores_return_type") else "false"))
     ns = out.get("name_sources") or {}
     nf = out.get("name_facts") or {}
     L.append("")
